@@ -37,6 +37,31 @@ def oracle(k, w):
     return None
 
 
+def pulse_gate_case(rng, kind, ar, sims=48):
+    """Directed shape: ONE gate of the given kind whose every input pin is fed by its own XOR2 of two primary inputs, so that each pin
+    sees 0, 1, a rising / falling edge or an internally generated positive / negative pulse (two edges with a skew), in all
+    combinations over the lanes; polarity-dependent and polarity-free delays.  The gate output is a primary output."""
+    from kyupy.circuit import Circuit, Node, Line
+    from harness import circgen as cg
+    c = Circuit('pulse')
+    g = Node(c, 'g', kind)
+    for k in range(ar):
+        a, b = Node(c, f'a{k}', 'input'), Node(c, f'b{k}', 'input')
+        x = Node(c, f'x{k}', 'XOR2')
+        c.io_nodes.append(a); c.io_nodes.append(b)
+        Line(c, a, (x, 0)); Line(c, b, (x, 1)); Line(c, x, (g, k))
+    o = Node(c, 'o', 'output')
+    c.io_nodes.append(o)
+    Line(c, g, o)
+    k = wk.Case()
+    k.c, k.a, k.reuse, k.strip, k.sims = c, None, False, False, sims
+    k.delays, k.style = wc.gen_delays(rng, len(c.lines), rng.choice(['full', 'polfree', 'spread', 'uniform']))
+    k.caps = 16
+    k.s0, k.s1, k.s2, k.extra = wc.gen_stimulus(rng, c, sims, tmax=20, extra_prob=0.0)
+    k.tcap, k.a_ctrl = None, None
+    return k
+
+
 def run(ck):
     sk.regen_tables(ck)
     if THEOREMS:
@@ -59,6 +84,20 @@ def run(ck):
             fails.append((wk.describe(k), 'small-circuit stress: ' + what))
             if len(fails) > 5:
                 break
+    # directed: every gate kind alone behind per-pin pulse generators
+    from harness import circgen as cg
+    kinds = cg.GATE_KINDS if ck.thorough else rng.sample(cg.GATE_KINDS, 14) + [('MUX21', 3), ('AO22', 4), ('OAI211', 4), ('XNOR3', 3)]
+    for kind, ar in kinds:
+        k = pulse_gate_case(rng, kind, ar, sims=ck.scale(192, 512))
+        try:
+            w = wk.run_case(k)
+            what = oracle(k, w)
+        except Exception as e:
+            what = f'raises {type(e).__name__}: {e}'
+        ck.count(k.sims, 'pulse-gate')
+        ck.nontrivial(('pg', kind))
+        if what and len(fails) <= 5:
+            fails.append((wk.describe(k), f'{kind} behind pulse generators: ' + what))
     ck.rule('random circuits x integer delays x capacities x stimuli over {0,1,R,F} with arbitrary transition times; both simulators '
             '(LogicSim m=8 with both option settings vs WaveSim); distinct = circuit/delay-style/capacity fingerprint')
     wk.report(ck, fails, mism, 'logic8-vs-wave', 'wave_sim.WaveSim vs logic_sim.LogicSim(m=8)')
